@@ -197,8 +197,13 @@ def g_url(spec, r):
 
 def g_ioc(spec, r):
     while True:
-        k = r.randrange(9)
-        if k == 0:
+        k = r.randrange(11)
+        if k == 9:
+            ind = netgen.odd_ipv4(r)
+        elif k == 10:
+            odd = netgen.odd_ipv4(r)
+            ind = r.choice([b"http://" + odd + b"/a", b"\\\\" + odd + b"\\share\\file.txt", b"ftp://u@" + odd + b":21/"])
+        elif k == 0:
             ind = netgen.ipv4(r)
         elif k == 1:
             ind = netgen.domain(r, case_mix=r.random() < 0.3)
